@@ -290,6 +290,22 @@ def build_jobs(ctx):
         signed.append(([[v]], rng.choice([1, 2]), 0.5))
     for _ in range(4):
         signed.append((rand_matrix(rng, 2, rng.random() < 0.5, -3, 3, 1.0), 1, 0.5))
+    # the ends of the narrow integer types as entries: -128 / 127 (int8), -32768 (int16) - what a cast of
+    # out-of-range or missing values leaves behind; |x| of the lowest value wraps around in its own type
+    extreme = []
+    for lo, hi, dt in ((-128, 127, "int8"), (-32768, 32767, "int16")):
+        for _ in range(2):
+            n = rng.randint(2, 5)
+            W = [[rng.choice([0, 0, 1, -1, lo, hi, lo]) for _ in range(n)] for _ in range(n)]
+            extreme.append((W, dt))
+    for W, dt in extreme:
+        for copy in (1, 0):
+            for fn, kw in (("binarize", {}), ("weight_conversion", dict(wcm="binarize")),
+                           ("threshold_absolute", dict(thr=0)), ("threshold_absolute", dict(thr=1))):
+                if fn == "weight_conversion" and False:
+                    continue
+                jobs.append(dict(fn=fn, src="extreme-" + dt, W=W, den=1, copy=copy, dtype=dt, layout="C",
+                                 ptype="int", **kw))
     for t, (W, den, p_plain) in enumerate(signed):
         for copy in ([1, 0] if not q else [rng.randrange(2)]):
             vals = sorted(set(v for row in W for v in row))
@@ -376,7 +392,7 @@ def run(ctx):
     for cfg in models:
         ctx.mc("MC_Threshold.tla", cfg)
     jobs = build_jobs(ctx)
-    recs = [_fill(j, r) for j, r in zip(jobs, pool.run_jobs(__name__, jobs))]
+    recs = [_fill(j, r) for j, r in zip(jobs, pool.run_jobs(__name__, jobs, strict_fp=True))]
     verdicts = ctx.validate(*TRACE, recs, chunk=3000 if ctx.quick else 8000)
     ctx.judge(jobs, rc.tag_failures(ctx, jobs, recs, verdicts), verdicts, what)
     ctx.extra["argument_variants"] = rc.variant_counts(jobs)
